@@ -197,7 +197,7 @@ def _own(cfg: HubConfig, problems) -> bool:
 
 def expand(args) -> Dict[str, Any]:
     """Worker: expand one frontier state. Returns children (history, key), problems, stats."""
-    builder, hist = args
+    builder, hist, part, nparts = args
     cfg = get_cfg(builder)
     stats: Dict[str, int] = {}
     problems: List[Tuple[Dict, List]] = []
@@ -213,7 +213,7 @@ def expand(args) -> Dict[str, Any]:
                 "spec": env.s, "idents": [(c.slot, c.mod_id, c.unique, c.name, c.connected) for c in env.s.conns],
                 "dyn": env.s.dyn, "nhist": len(hist)}
         ops = cfg.ops(cfg, info)
-        if cfg.probes:
+        if cfg.probes and part == 0:
             before = len(env.problems)
             _run_probes(cfg, env, stats, False)
             for p in env.problems[before:]:
@@ -221,10 +221,14 @@ def expand(args) -> Dict[str, Any]:
             stats["states_probed"] = 1
     finally:
         env.close()
-    if cfg.probes and cfg.nonwritable:
+    if cfg.probes and cfg.nonwritable and part == (1 % nparts):
         _nonwritable_probes(cfg, env, hist, stats, problems)
-    # 2. single operations
+    # 2. single operations (work is split into `nparts` slices by transition index)
+    tix = 0
     for label, evs in ops:
+        tix += 1
+        if tix % nparts != part:
+            continue
         e2 = _build(cfg, hist)
         try:
             for ev in evs:
@@ -249,6 +253,9 @@ def expand(args) -> Dict[str, Any]:
             if cfg.pairs == "publish" and not (l1.startswith("pub") or l2.startswith("pub")):
                 continue
             for order in (0, 1):
+                tix += 1
+                if tix % nparts != part:
+                    continue
                 e2 = _build(cfg, hist)
                 try:
                     for ev in e1 + e2s:
@@ -281,7 +288,8 @@ def bfs(builder, chk: core.Check, max_depth: int = 99) -> Dict[str, Any]:
     totals: Dict[str, int] = {}
     labels = set()
     while frontier and depth < max_depth:
-        res = core.pmap(expand, [(builder, h) for h in core.shuffled(frontier, f"{cfg.name}{depth}")])
+        nparts = max(1, min(16, 48 // max(1, len(frontier))))
+        res = core.pmap(expand, [(builder, h, part, nparts) for h in core.shuffled(frontier, f"{cfg.name}{depth}") for part in range(nparts)])
         nxt = []
         for r in res:
             for k, v in r["stats"].items():
